@@ -172,27 +172,31 @@ fn side(c: &Case) -> Side {
     let w = c.eff_width();
     let a = c.eff_anchor();
     let mut faces = vec![BTreeMap::new(); n];
+    let _ = a;
     for cv in &views {
-        for f in &cv.faces {
-            let key = match f.right {
-                Some(j) => Key::Site(j, obs::shift_ints(f.shift.map(glam::DVec3::from_array), &w)),
+        // the faces as this cell integrates them, with the plane each belongs to: a wall is
+        // identified by the outward normal of its plane (a face centroid in a corner of the box
+        // is equally close to two walls)
+        let cell = match vi.get_cell_at(cv.idx) {
+            Some(c) => c,
+            None => continue,
+        };
+        for f in cell.compute_face_integrals::<(), obs::PlaneFace>(()) {
+            let p = f.integral();
+            let key = match f.right() {
+                Some(j) => Key::Site(j, obs::shift_ints(f.shift(), &w)),
                 None => {
-                    // which wall: the one the face centroid is closest to, in units of the width
-                    let mut best = (f64::INFINITY, 0usize, false);
-                    for k in 0..d {
-                        let lo = (f.centroid[k] - a[k]).abs() / w[k];
-                        let hi = (a[k] + w[k] - f.centroid[k]).abs() / w[k];
-                        if lo < best.0 {
-                            best = (lo, k, false);
-                        }
-                        if hi < best.0 {
-                            best = (hi, k, true);
+                    let out = -cell.clipping_planes[p.plane_idx].normal();
+                    let mut axis = 0;
+                    for k in 1..d {
+                        if out[k].abs() > out[axis].abs() {
+                            axis = k;
                         }
                     }
-                    Key::Wall(best.1, best.2)
+                    Key::Wall(axis, out[axis] > 0.)
                 }
             };
-            *faces[cv.idx].entry(key).or_insert(0.) += f.area;
+            *faces[cv.idx].entry(key).or_insert(0.) += p.area;
         }
     }
     Side { vols: views.iter().map(|v| v.volume).collect(), cents: views.iter().map(|v| v.centroid).collect(), faces, infos }
